@@ -25,7 +25,7 @@ SPECIAL = ['"', "\\", ";", ",", "=", " ", "\t", "\0", "\r", "\n", "\x7f", "\x80"
 SPECIAL8 = ['"', "\\", ";", " ", "=", "\xe9", "a", ","]
 ESC = ["\\", "1", "0", "7", '"', "3"]  # strings that look like the escapes the serialisation itself uses (\\ooo, \\", \\\\)
 ZONES = ["UTC", "Asia/Shanghai", "America/New_York", "Europe/London", "Pacific/Chatham"]
-INSTANTS = [1772953199.5, 1772953200.0, 1793511000.25, 1783000000.0, 1798761599.9, 951782400.0]
+INSTANTS = [1772953199.5, 1772953200.0, 1793511000.25, 1783000000.0, 1798761599.9, 951782400.0, 1798761600.0 + 86400 * 1.5, 1893369600.0, 1609372800.0, 1104451200.0]  # ... 2027-01-02, 2029-12-31, 2020-12-31, 2004-12-31 (ISO week years differ)
 # 2026-03-08 06:59:59.5Z (US DST start), 07:00:00Z, 2026-11-01 05:30:00Z (US DST end), mid-2026, 2026-12-31 23:59:59.9Z, 2000-02-29
 
 
@@ -37,6 +37,8 @@ def shards(tier, seed):
     if tier == "thorough":
         out += [("two_full", n, i) for n in range(3) for i in range(len(SPECIAL))]
     out.append(("sets",))
+    out.append(("long",))
+    out.append(("reuse",))
     out += [("expiry", z) for z in ZONES]
     return out
 
@@ -123,6 +125,37 @@ def cookie_sets(r):
                     continue
                 if dict(got) != dict(combo):
                     r.violation("sets:value-changed", w, f"{iface} cookies {combo} -> Cookie: {header!r} -> {dict(got)!r}")
+
+
+def reuse_sequences(r):
+    """One response object emitted several times with cookie operations in between: every emission shows exactly the cookies set so far."""
+    ops = [("set", "a", "1"), ("set", "b", "x;y"), ("delete", "a"), ("set", "a", "2"), ("delete", "zz")]
+    for iface in ("wsgi", "asgi"):
+        mod = __import__("baize.wsgi" if iface == "wsgi" else "baize.asgi", fromlist=["Response"])
+        for seq in itertools.permutations(range(len(ops)), 3):
+            for emit_after in itertools.product((False, True), repeat=3):
+                resp = mod.Response(204)
+                expect = []
+                r.count("evaluations")
+                r.count("distinct_nontrivial")
+                w = {"kind": "reuse", "iface": iface, "seq": list(seq), "emit_after": list(emit_after)}
+                for i, e in zip(seq, emit_after):
+                    op = ops[i]
+                    if op[0] == "set":
+                        resp.set_cookie(op[1], op[2])
+                        expect.append((op[1], False))
+                    else:
+                        resp.delete_cookie(op[1])
+                        expect.append((op[1], True))
+                    if e or i == seq[-1]:
+                        req = SV.AReq()
+                        res = SV.run_wsgi(resp, SV.to_environ(req)) if iface == "wsgi" else SV.run_asgi(resp, SV.to_scope(req), SV.to_messages(req))
+                        lines = [v for k, v in res.headers if k.lower() == "set-cookie"]
+                        got = [(l.split("=", 1)[0], "max-age=0" in l) for l in lines]
+                        if res.exc is not None or got != expect:
+                            r.violation("reuse:cookies-missing-or-extra", w, f"{iface} response after operations {[ops[j] for j in seq[:len(expect)]]}: emitted cookies {got}, expected {expect}")
+                            break
+    r.sample({"reuse": [["set", "a", "1"], "emit", ["delete", "a"], "emit"]})
 
 
 def parse_attrs(line):
@@ -220,6 +253,13 @@ def run_shard(desc, tier):
         for cp in range(256):
             roundtrip(r, name, a + chr(cp), "2char-full")
             roundtrip(r, name, chr(cp) + a, "2char-full")
+    elif desc[0] == "long":
+        for unit in ("é", ";", "a", '"', "\\", " x"):
+            for n in (255, 1023, 1024, 1025, 4095, 5000):
+                roundtrip(r, "big", unit * n, "long")
+        r.sample({"name": "big", "value": "'é' * 1025"})
+    elif desc[0] == "reuse":
+        reuse_sequences(r)
     elif desc[0] == "sets":
         cookie_sets(r)
         r.sample({"cookies": AWKWARD[:3]})
@@ -236,6 +276,8 @@ def replay(w):
     r = R()
     if w["kind"] == "roundtrip":
         roundtrip(r, w["name"], w["value"], "replay")
+    elif w["kind"] == "reuse":
+        reuse_sequences(r)
     elif w["kind"] == "set":
         cookie_sets(r)
         r.viol = {k: v for k, v in r.viol.items() if v[1]["cookies"] == w["cookies"] and v[1]["iface"] == w["iface"]}
